@@ -12,7 +12,7 @@
   part of every component); `IsCurveGradAt f x g := ∀ c d, c 0 = x → Tangent c d → HasDerivAt (f ∘ c) (Re⟪g,d⟫) 0`
   (the gradient along every differentiable curve through `x`, not only along lines).
 -/
-import Scico.Proofs.AutogradChain
+import Scico.Proofs.AutogradConvex
 import Scico.Proofs.AutogradComplex
 
 namespace Scico.Props.C07
@@ -295,6 +295,20 @@ theorem C07_set_distance (P JP GP : CVec ℝ n → CVec ℝ n) (x : CVec ℝ n)
     simp only [e]
     simpa only [vsub_zero, vsmul_one, one_mul, Fn.eval] using h
 
+/-- **Squared distance to a closed convex set** (`IsProjection C P`: `P x ∈ C` and
+    `Re⟪x − P x, z − P x⟫ ≤ 0` for `z ∈ C`): `½‖z − P z‖²` is differentiable at EVERY `x` with the documented
+    gradient `x − P(x)` — no smoothness of `P` assumed.  Consequently, whenever JAX's contracts hold for `P`
+    at `x`, what `SquaredSetDistance.grad` computes by differentiating *through* `proj` (`C07_set_distance`)
+    is exactly `x − P(x)` (uniqueness of the gradient). -/
+theorem C07_squared_distance_convex (C : CVec ℝ n → Prop) (P : CVec ℝ n → CVec ℝ n) (hP : IsProjection C P)
+    (x : CVec ℝ n) :
+    IsGradAt (fun z => (1 / 2) * sumAbs2 (vsub z (P z))) x (vsub x (P x)) ∧
+    ∀ (JP GP : CVec ℝ n → CVec ℝ n), (∀ d, Tangent (fun t => P (along x d t)) (JP d)) →
+      (∀ c d, reBdot (GP c) d = reBdot c (JP d)) →
+      vsmul (1 / 2) (vjpWrap true (fun c => vsub c (GP c)) ((Fn.sqL2 : Fn ℝ n).grad (vsub x (P x)))) = vsub x (P x) :=
+  ⟨isGradAt_sqdist C P hP x, fun JP GP hJ hG =>
+    isGradAt_unique _ x _ _ (C07_set_distance P JP GP x hJ hG).1 (isGradAt_sqdist C P hP x)⟩
+
 /-- `SetDistance` at a point in the interior of the set (`P` is the identity near `x` along every line):
     the guarded square root makes the functional identically 0 there and JAX's gradient through the
     `where` is 0 — the true gradient.  (Before repair 8f5a90e the code returned NaN: `norm` at 0.) -/
@@ -482,6 +496,20 @@ theorem C07_smooth_domain_tight (x : CVec ℝ n) (i : Fin n) :
     (¬ ∃ g, IsGradAt (Fn.l2 : Fn ℝ n).eval (fun _ => 0) g) :=
   ⟨fun hi => l1_not_grad x i hi, l2_not_grad i⟩
 
+/-- at the kinks of the l1 norm (some `xᵢ = 0`, where no gradient exists) what `grad` returns is still a
+    **sub-gradient**: for every `g` with `gᵢ = xᵢ/|xᵢ|` where `xᵢ ≠ 0` and `|gᵢ| ≤ 1` where `xᵢ = 0` — JAX gives `0`
+    there for complex arrays (the model's `grad`) and `1` for real arrays — `‖z‖₁ ≥ ‖x‖₁ + Re⟪g, z − x⟫` for all `z` -/
+theorem C07_l1_kink_subgradient (x z : CVec ℝ n) :
+    (∀ g : CVec ℝ n, (∀ i, Cx.abs2 (x i) ≠ 0 → g i = Cx.divr (x i) (Cx.abs (x i))) →
+      (∀ i, Cx.abs2 (x i) = 0 → Cx.abs2 (g i) ≤ 1) →
+      (Fn.l1 : Fn ℝ n).eval x + reInner g (vsub z x) ≤ (Fn.l1 : Fn ℝ n).eval z) ∧
+    (Fn.l1 : Fn ℝ n).eval x + reInner ((Fn.l1 : Fn ℝ n).grad x) (vsub z x) ≤ (Fn.l1 : Fn ℝ n).eval z := by
+  refine ⟨fun g h1 h0 => l1_subgradient x g z h1 h0, l1_subgradient x _ z (fun i hi => ?_) (fun i hi => ?_)⟩
+  · simp only [Fn.grad, Fn.jaxGrad, scicoGrad, conjVec, absGrad_of_ne _ hi]
+    apply Cx.ext' <;> simp [neg_div]
+  · simp only [Fn.grad, Fn.jaxGrad, scicoGrad, conjVec, absGrad_of_zero _ hi]
+    simp [Cx.abs2, Cx.conj]
+
 /-- Huber norm, separable form, **everywhere** (threshold `|xᵢ| = δ` and `xᵢ = 0` included):
     gradient `xᵢ` inside, `δ xᵢ/|xᵢ|` outside -/
 theorem C07_deriv_huber_sep (δ : ℝ) (hδ : 0 < δ) (x : CVec ℝ n) :
@@ -561,6 +589,22 @@ theorem C07_rebind (ops : List (LossOp ℝ)) (i : Nat) (se : ℝ)
   rw [reInner_vsmul_left]
   exact (hγ d).const_mul se
 
+/-- a Hessian operator `H = L.hessian` **kept across later operations** (`set_scale` on `L`, copies `c*L`, `L/c`,
+    new losses …): taken from object `i` after ANY history `ops₁`, applied after ANY continuation `ops₂`, it
+    still exists, applies `2·se·AᴴWA` with `se` the CURRENT scale of `L`, and is therefore the Hessian of the
+    function `L` currently is (exact second-order expansion) — `set_scale` on `L` is followed, rescaled copies
+    of `L` do not affect it. -/
+theorem C07_hessian_handle (ops₁ ops₂ : List (LossOp ℝ)) (i : Nat)
+    (hi : (Heap.run ([] : Heap ℝ) ops₁).evalScale i ≠ none)
+    (A : Mat ℝ m n) (y : CVec ℝ m) (w : Vec ℝ m) (x d : CVec ℝ n) :
+    ∃ se, (Heap.run ([] : Heap ℝ) (ops₁ ++ ops₂)).evalScale i = some se ∧
+      (Heap.run ([] : Heap ℝ) (ops₁ ++ ops₂)).hessHandleApply i A w d = some (hessianApply se A w d) ∧
+      (Fn.sqL2Loss se A y w).eval (vadd x d) =
+        (Fn.sqL2Loss se A y w).eval x + reInner ((Fn.sqL2Loss se A y w).grad x) d
+          + (1 / 2) * reInner (hessianApply se A w d) d := by
+  obtain ⟨se, hse⟩ := Heap.evalScale_isSome_mono ops₁ ops₂ i hi
+  exact ⟨se, hse, by simp [Heap.hessHandleApply, hse], sqL2Loss_expansion se A y w x d⟩
+
 /-- the re-binding line of `Loss.__mul__` is what makes this true: with `copy` alone the product
     `2 * L` would use the *old* scale in its gradient -/
 theorem C07_stale_without_rebind :
@@ -617,6 +661,19 @@ example (M : Mat ℝ 2 2) (x : CVec ℝ 2) :
     (∀ c d, reBdot (mulVec (transpose M) c) d = reBdot c (mulVec M d)) :=
   ⟨fun d => tangent_mulVec M (tangent_along x d), reBdot_transpose M⟩
 
+-- `C07_squared_distance_convex`: the projection onto `{z : Re zᵢ ≥ 0}` (clamp of the real parts — not
+-- differentiable on the faces) satisfies `IsProjection`
+example : IsProjection (n := 3) (fun z => ∀ i, 0 ≤ (z i).re) (fun z i => ⟨max (z i).re 0, (z i).im⟩) := by
+  refine ⟨fun x i => le_max_right _ _, fun x z hz => ?_⟩
+  rw [reInner_eq]
+  refine Finset.sum_nonpos (fun i _ => ?_)
+  simp only [vsub, Cx.sub_re, Cx.sub_im, sub_self, zero_mul, add_zero]
+  rcases le_total 0 (x i).re with h | h
+  · rw [max_eq_left h]; simp
+  · rw [max_eq_right h]
+    have := hz i
+    nlinarith
+
 -- `C07_group_norm_structural_zero`: a 1-D non-circular difference `[x₁−x₀, 0]` with one group per row:
 -- the second group is structurally zero, the first is non-zero at `x = (0, 1)`
 example : let A : Mat ℝ 2 2 := fun i j => if i = 0 then (if j = 0 then ⟨-1, 0⟩ else ⟨1, 0⟩) else 0
@@ -643,6 +700,10 @@ example : (Fn.sqL2AbsLoss (n := 1) (m := 1) 2 (fun _ _ => ⟨0, 1⟩) (fun _ => 
 -- `ProximalAverage([L1Norm, SquaredL2Norm], [1, 3])`: stored weights are `1/4, 3/4`
 example : proxAvgWeights 2 (fun k => (k : ℚ)) (some [1, 3]) = [1/4, 3/4] := by
   simp [proxAvgWeights]; norm_num
+
+-- `C07_hessian_handle`: handle taken from object 0 after `[new 1]`, then `set_scale(0, 5)` and a copy `3*L`:
+-- the handle applies the scale 5 (not 1, not 15)
+example : (Heap.run ([] : Heap Nat) ([.new 1] ++ [.setScale 0 5, .mul 0 3])).evalScale 0 = some 5 := by decide
 
 -- slot plumbing on a concrete argument list
 example : sliceArgs 1 (fixArgs 1 [10, 20, 30]) 99 = [10, 99, 30] := by decide
